@@ -104,10 +104,20 @@ func (ex *Exec) callFn(fr *Frame, st *State, pc *Term, fn *ssa.Function, args []
 		return VBool{Not(ex.specForall(fr, st, pc, negClosure{args[0]}).(VBool).T)}, pc
 	}
 	if h, ok := externs[key]; ok {
-		return h(ex, fr, st, pc, fn, args, pos)
+		if v, pc2, done := ex.reflectPre(fr, st, pc, key, args, pos); done {
+			return v, pc2
+		}
+		v, pc2 := h(ex, fr, st, pc, fn, args, pos)
+		ex.reflectPost(fr, st, pc2, key, fn, args, v)
+		return v, pc2
 	}
 	if h := externByPrefix(key); h != nil {
-		return h(ex, fr, st, pc, fn, args, pos)
+		if v, pc2, done := ex.reflectPre(fr, st, pc, key, args, pos); done {
+			return v, pc2
+		}
+		v, pc2 := h(ex, fr, st, pc, fn, args, pos)
+		ex.reflectPost(fr, st, pc2, key, fn, args, v)
+		return v, pc2
 	}
 	c := ex.V.contractFor(fn)
 	if c != nil && c.Abstract {
@@ -1108,5 +1118,95 @@ func (ex *Exec) havocWritten(st *State, fn *ssa.Function, ws map[string]bool) {
 			nc = Store(nc, k.id, k.val)
 		}
 		st.setComp(comp, nc)
+	}
+}
+
+// ---- reflect.Value validity ("reflect-validity" in the contract of the function under verification) ----
+//
+// reflect stays an opaque dependency, with one of its panics modelled: every method of reflect.Value other
+// than IsValid, Kind and String panics on the zero Value. valid(v) and isnil(v) are uninterpreted
+// predicates of the value; ValueOf(x) is valid iff x is not the nil interface, Elem() of a nil pointer or
+// interface is the zero Value, every other reflect.Value result is valid.
+
+func reflectValid(v Value) *Term { return App("reflect.valid", BoolSort, toLeaves(v)...) }
+
+// whether a pointer/interface/slice/map Value is nil can change when the variable it refers to is assigned
+// through reflection: isnil depends on an epoch that every Value.Set advances
+const compReflectEpoch = "G|reflect.epoch"
+
+func reflectIsNil(st *State, v Value) *Term {
+	return reflectIsNilAt(v, st.comp(compReflectEpoch, BV64))
+}
+func reflectIsNilAt(v Value, epoch *Term) *Term {
+	return App("reflect.isnil", BoolSort, append(toLeaves(v), epoch)...)
+}
+func isReflectValue(t types.Type) bool {
+	n, ok := t.(*types.Named)
+	return ok && n.Obj().Pkg() != nil && n.Obj().Pkg().Path() == "reflect" && n.Obj().Name() == "Value"
+}
+
+func (ex *Exec) reflectOn(fr *Frame) bool {
+	return ex.curContract != nil && ex.curContract.ReflectValid && !fr.spec
+}
+
+func (ex *Exec) reflectPre(fr *Frame, st *State, pc *Term, key string, args []Value, pos token.Pos) (Value, *Term, bool) {
+	const pre = "(reflect.Value)."
+	if !strings.HasPrefix(key, pre) || ex.curContract == nil || !ex.curContract.ReflectValid {
+		return nil, nil, false
+	}
+	switch m := key[len(pre):]; m {
+	case "IsValid":
+		return VBool{reflectValid(args[0])}, pc, true
+	case "IsNil":
+		if !fr.spec {
+			ex.safety(fr, "reflect-zero", pos, pc, reflectValid(args[0]))
+		}
+		return VBool{reflectIsNil(st, args[0])}, pc, true
+	case "Kind", "String":
+	default:
+		if !fr.spec {
+			ex.safety(fr, "reflect-zero", pos, pc, reflectValid(args[0]))
+		}
+	}
+	return nil, nil, false
+}
+
+func (ex *Exec) reflectPost(fr *Frame, st *State, pc *Term, key string, fn *ssa.Function, args []Value, res Value) {
+	if ex.curContract == nil || !ex.curContract.ReflectValid || !strings.Contains(key, "reflect.") {
+		return
+	}
+	if key == "(reflect.Value).Set" && !fr.spec {
+		// v.Set(x): afterwards v is nil exactly if x was; nothing else is known about nil-ness any more
+		old := st.comp(compReflectEpoch, BV64)
+		nw := Fresh("reflect.epoch", BV64)
+		ex.noteWrite(compReflectEpoch)
+		st.setComp(compReflectEpoch, nw)
+		ex.assume(pc, Eq(reflectIsNilAt(args[0], nw), reflectIsNilAt(args[1], old)))
+		return
+	}
+	if key == "(reflect.Value).Kind" {
+		// the zero Value, and only it, has Kind Invalid (0)
+		if k, ok := res.(VBV); ok {
+			ex.assume(pc, Eq(reflectValid(args[0]), Not(Eq(k.T, Const(0, k.T.Sort.W)))))
+		}
+		return
+	}
+	rs := fn.Signature.Results()
+	if rs.Len() != 1 || !isReflectValue(rs.At(0).Type()) {
+		return
+	}
+	switch key {
+	case "(reflect.Value).Elem":
+		ex.assume(pc, Eq(reflectValid(res), Not(reflectIsNil(st, args[0]))))
+	case "reflect.ValueOf":
+		if i, ok := args[0].(VIface); ok {
+			ex.assume(pc, Eq(reflectValid(res), Not(Eq(i.Tag, C64(0)))))
+		}
+	case "reflect.New":
+		ex.assume(pc, And(reflectValid(res), Not(reflectIsNil(st, res))))
+	case "reflect.Indirect":
+		// Indirect(v) is v itself unless v is a pointer: nothing is known
+	default:
+		ex.assume(pc, reflectValid(res))
 	}
 }
